@@ -154,6 +154,41 @@ class SimOS:
     def fdatasync(self, fd):
         return self.fsync(fd)
 
+    def replace(self, src, dst):
+        fs = self.fs
+        fs._y("rename")
+        s, d = posixpath.normpath(src), posixpath.normpath(dst)
+        if s not in fs.files:
+            raise FileNotFoundError(errno.ENOENT, "No such file or directory", src)
+        if d in fs.dirs:
+            raise IsADirectoryError(errno.EISDIR, "Is a directory", dst)
+        if posixpath.dirname(d) not in fs.dirs:
+            raise FileNotFoundError(errno.ENOENT, "No such file or directory", dst)
+        fs._fault("rename", d)
+        fs.files[d] = fs.files.pop(s)
+        for fd, p in list(fs.fds.items()):
+            if p == s:
+                fs.fds[fd] = d
+        for raw in fs.raws:
+            if raw.path == s and not raw.closed:
+                raw.path = d
+        fs.trace.append(("rename", s, d))
+
+    rename = replace
+
+    def remove(self, path):
+        fs = self.fs
+        fs._y("unlink")
+        p = posixpath.normpath(path)
+        if p in fs.dirs:
+            raise IsADirectoryError(errno.EISDIR, "Is a directory", path)
+        if p not in fs.files:
+            raise FileNotFoundError(errno.ENOENT, "No such file or directory", path)
+        del fs.files[p]
+        fs.trace.append(("unlink", p))
+
+    unlink = remove
+
     def listdir(self, path):
         p = posixpath.normpath(path)
         out = set()
@@ -173,6 +208,7 @@ class SimFS:
         self.next_fd = 100
         self.os = SimOS(self)
         self.fault_hook = None     # fn(kind, path) -> may raise OSError
+        self.raws = []             # open raw files (paths follow a rename)
         if root != "/":
             self.dirs.add(posixpath.normpath(root))
 
@@ -212,7 +248,9 @@ class SimFS:
             self.next_fd += 1
             self.fds[fd] = p
             self.trace.append(("open", p))
-            return io.BufferedReader(SimRaw(self, p, "r", fd))
+            raw = SimRaw(self, p, "r", fd)
+            self.raws.append(raw)
+            return io.BufferedReader(raw)
         if mode == "wb":
             self._y("open")
             if p in self.dirs:
@@ -231,7 +269,9 @@ class SimFS:
             fd = self.next_fd
             self.next_fd += 1
             self.fds[fd] = p
-            return io.BufferedWriter(SimRaw(self, p, "w", fd))
+            raw = SimRaw(self, p, "w", fd)
+            self.raws = [r for r in self.raws if not r.closed] + [raw]
+            return io.BufferedWriter(raw)
         raise ValueError(f"SimFS.open: unsupported mode {mode!r}")
 
     # ---- snapshots ---------------------------------------------------------
@@ -247,7 +287,7 @@ class SimFS:
 
 
 # ---------------------------------------------------------------- crash images
-META = ("mkdir", "creat", "trunc")
+META = ("mkdir", "creat", "trunc", "rename", "unlink")
 
 
 def crash_images(base_image, trace, upto):
@@ -294,6 +334,18 @@ def crash_images(base_image, trace, upto):
                     blocked.discard(p)
                 else:
                     blocked.add(p)
+            elif k == "rename":
+                s, d = op[1], op[2]
+                if i <= last_meta and s in cur and s not in blocked:
+                    cur[d] = cur.pop(s)
+                    synced[d] = synced.pop(s)      # the rename is journalled; the data keeps its own sync state
+                    blocked.discard(d)
+                else:
+                    blocked.add(s)
+            elif k == "unlink":
+                if i <= last_meta:
+                    cur.pop(op[1], None)
+                    synced.pop(op[1], None)
             elif k == "write":
                 p = op[1]
                 if p in blocked or p not in cur:
